@@ -498,6 +498,10 @@ class Plane:
                 mask = self.mask if self.mask.ndim < 3 else self.mask[n]
                 amp = self.amplitude * mask[s] if self.amplitude.size == 1 else self.amplitude[s] * mask[s]
                 opd = self.opd if self.opd.size == 1 else self.opd[s]
+                # the phase is computed in double precision whatever the type the
+                # OPD map is stored in (a single precision map would otherwise give
+                # a single precision phasor, silently widened afterwards)
+                opd = np.asarray(opd, dtype=float)
 
                 # construct complex phasor
                 phasor = Field(data=amp*np.exp(2*np.pi*1j*opd/wavefront.wavelength),
